@@ -40,7 +40,7 @@ impl Out {
     }
 }
 
-pub fn buildings(r: &mut Rng, n: usize, findings: &mut Vec<Value>) -> Value {
+pub fn buildings(r: &mut Rng, n: usize, findings: &mut Vec<Value>, texts: &mut Vec<String>) -> Value {
     let mut fields = 0usize;
     let mut parsed = 0usize;
     for doc in 0..n {
@@ -173,6 +173,7 @@ pub fn buildings(r: &mut Rng, n: usize, findings: &mut Vec<Value>) -> Value {
             }
         }
         let text = o.text.clone();
+        texts.push(text.clone());
         let t2 = text.clone();
         let d = match crate::guarded(std::panic::AssertUnwindSafe(move || Data::new(&t2).map_err(|e| e.to_string()))) {
             Ok(Ok(d)) => d,
@@ -273,4 +274,63 @@ pub fn buildings(r: &mut Rng, n: usize, findings: &mut Vec<Value>) -> Value {
         }
     }
     json!({"buildings": n, "buildings_parsed": parsed, "building_fields_compared": fields})
+}
+
+fn num(x: f32) -> String {
+    if x.is_nan() {
+        "INan".into()
+    } else if x.is_infinite() {
+        format!("(IInf {})", crate::coq::b(x < 0.0))
+    } else {
+        format!("(INum {})", crate::coq::q(x))
+    }
+}
+
+/// a BDL text of a whole building with the spaces and walls hulc::bdl::Data::new builds from it, as a Coq case
+pub fn building_case(text: &str) -> (String, usize) {
+    use crate::p18::{clines, cstr};
+    let t = text.to_string();
+    let ostr = |o: &Option<String>| match o {
+        Some(s) => format!("(Some {})", cstr(s)),
+        None => "None".to_string(),
+    };
+    let (it, cls) = match crate::guarded(std::panic::AssertUnwindSafe(move || Data::new(&t).map_err(|e| e.to_string()))) {
+        Ok(Ok(d)) => {
+            let sps: Vec<String> = d
+                .spaces
+                .iter()
+                .map(|s| {
+                    format!(
+                        "mkISp {} {} {} [{}] {} {} {} {} {} {}%nat",
+                        cstr(&s.name), cstr(&s.floor), cstr(&s.stype),
+                        [s.x, s.y, s.z, s.angle_with_building_north, s.height, s.floor_multiplier, s.power, s.veei_obj, s.veei_ref, s.multiplier].iter().map(|x| num(*x)).collect::<Vec<_>>().join("; "),
+                        crate::coq::b(s.insidete), cstr(&s.spacetype), cstr(&s.spaceconds), cstr(&s.systemconds), crate::coq::b(s.ismultiplied), s.polygon.as_vec().len()
+                    )
+                })
+                .collect();
+            let wls: Vec<String> = d
+                .walls
+                .iter()
+                .map(|w| {
+                    let horizontal = w.tilt == 0.0 || w.tilt == 180.0 || matches!(w.location.as_deref(), Some("TOP") | Some("BOTTOM"));
+                    let az = if horizontal || w.polygon.is_some() { format!("(Some {})", num(w.angle_with_space_north)) } else { "None".to_string() };
+                    let bounds = match format!("{:?}", w.bounds).as_str() {
+                        "EXTERIOR" => 0,
+                        "INTERIOR" => 1,
+                        "GROUND" => 2,
+                        _ => 3,
+                    };
+                    format!(
+                        "mkIWl {} {} {} {} {}%N [{}; {}; {}; {}] {} {} {}",
+                        cstr(&w.name), cstr(&w.space), cstr(&w.cons), ostr(&w.location), bounds, num(w.tilt), num(w.x), num(w.y), num(w.z),
+                        crate::coq::b(w.polygon.is_some()), az, ostr(&w.nextto)
+                    )
+                })
+                .collect();
+            (format!("BOk [{}] [{}]", sps.join("; "), wls.join("; ")), 0)
+        }
+        Ok(Err(_)) => ("BErr".to_string(), 1),
+        Err(_) => ("BPanic".to_string(), 2),
+    };
+    (format!("CBuilding (mkBC {}\n ({}))", clines(text), it), cls)
 }
